@@ -223,7 +223,7 @@ func checkRange(r *rep.Reporter, kind, via string, size int64, full []byte, h st
 func runC11(c *Ctx) {
 	r := c.R
 	maxSize := r.Pick(12, 64)
-	r.SetRule(fmt.Sprintf("object sizes 0..%d exhaustively x first,last,suffix in -1..size+2 in all three forms, boundary values around 2^31/2^63/2^64, whitespace, signs, zero-padded positions, multiple ranges, other units, plus a 70001-byte object with boundary and random ranges; on the directory-backed filesystem backends also files the server did not write (dropped into its directory before it starts, or rewritten behind its back) whose very first access is a ranged GET; on the memory backend also current and noncurrent versions read by ?versionId; every backend, HTTP GET and Go Backend.GetObject; distinct = (backend, via, size, header)", maxSize))
+	r.SetRule(fmt.Sprintf("object sizes 0..%d exhaustively x first,last,suffix in -1..size+2 in all three forms, boundary values around 2^31/2^63/2^64, whitespace, signs, zero-padded positions, multiple ranges, other units, plus a 70001-byte object with boundary and random ranges; on the directory-backed filesystem backends also files the server did not write (dropped into its directory before it starts, or rewritten behind its back) whose very first access is a ranged GET; on the memory backend also current and noncurrent versions read by ?versionId; every backend, HTTP GET and Go Backend.GetObject; distinct = (backend, via, size, header); ranged reads served on the file backends while the n-th file-system call of a class (open, stat, seek, ...) fails: a read that is answered with a success carries exactly the requested bytes under matching Content-Range and Content-Length", maxSize))
 	r.Exhaustive(true)
 	r.Set("exhaustive_scope", fmt.Sprintf("sizes 0..%d x {first-last, first-, -suffix} with values -1..size+2 on 6 backends via HTTP and Go API", maxSize))
 	kinds := drv.AllKinds
@@ -484,6 +484,9 @@ func runC11(c *Ctx) {
 			}
 		}
 		s.Close()
+	}
+	if c.Only == "" {
+		runC11Faults(r)
 	}
 	r.Require("ranged_reads_by_version_id", 100)
 	r.Require("first_access_to_adopted_file", 50)
